@@ -32,6 +32,11 @@ def invariantCulture : Culture where
   offLongNP := "+HHmmss".toList
   offMediumNP := "+HHmm".toList
   offShortNP := "+HH".toList
+  fullDateTime := "dddd, dd MMMM yyyy HH:mm:ss".toList
+  eraNamesBCE := ["B.C.E.", "B.C.", "BCE", "BC"].map String.toList
+  eraNamesCE := ["A.D.", "C.E.", "AD", "CE"].map String.toList
+  eraPrimaryBCE := "B.C.".toList
+  eraPrimaryCE := "A.D.".toList
 
 /-- a pattern object: a stepped pattern, or (Offset only) the `Z`-prefix wrapper / a composite -/
 inductive Pat where
@@ -70,6 +75,37 @@ def compileDate (cu : Culture) (text : Text) : R Pat :=
     else if c = 'M' then steppedOf (compileCustom .date cu cu.monthDay)
     else .error .invalidPattern
   | _ => steppedOf (compileCustom .date cu text)
+
+/-- `_LocalDateTimePatternParser.parse_pattern` (template value in the ISO calendar).  The standard letters
+    `o O r R s S` resolve to the shared built-in pattern objects, which were created with the invariant culture
+    and the DEFAULT template value (see `effTmpl`); `f F g G` expand the culture's pattern texts. -/
+def compileDateTime (tm : Tmpl) (cu : Culture) (text : Text) : R Pat :=
+  match text with
+  | [] => .error .invalidPattern
+  | [c] =>
+    if c = 'o' ∨ c = 'O' then
+      steppedOf (compileCustom (.datetime tm) invariantCulture "uuuu'-'MM'-'dd'T'HH':'mm':'ss'.'fffffff".toList)
+    else if c = 'r' then
+      steppedOf (compileCustom (.datetime tm) invariantCulture "uuuu'-'MM'-'dd'T'HH':'mm':'ss'.'fffffffff '('c')'".toList)
+    else if c = 'R' then
+      steppedOf (compileCustom (.datetime tm) invariantCulture "uuuu'-'MM'-'dd'T'HH':'mm':'ss'.'fffffffff".toList)
+    else if c = 's' then
+      steppedOf (compileCustom (.datetime tm) invariantCulture "uuuu'-'MM'-'dd'T'HH':'mm':'ss".toList)
+    else if c = 'S' then
+      steppedOf (compileCustom (.datetime tm) invariantCulture "uuuu'-'MM'-'dd'T'HH':'mm':'ss;FFFFFFFFF".toList)
+    else if c = 'f' then steppedOf (compileCustom (.datetime tm) cu (cu.longDate ++ [' '] ++ cu.shortTime))
+    else if c = 'F' then steppedOf (compileCustom (.datetime tm) cu cu.fullDateTime)
+    else if c = 'g' then steppedOf (compileCustom (.datetime tm) cu (cu.shortDate ++ [' '] ++ cu.shortTime))
+    else if c = 'G' then steppedOf (compileCustom (.datetime tm) cu (cu.shortDate ++ [' '] ++ cu.longTime))
+    else .error .invalidPattern
+  | _ => steppedOf (compileCustom (.datetime tm) cu text)
+
+/-- the template value a LocalDateTime pattern object parses with: the built-in patterns behind the standard
+    letters `o O r R s S` keep the default template whatever template was asked for -/
+def effTmpl (tm : Tmpl) (text : Text) : Tmpl :=
+  match text with
+  | [c] => if c = 'o' ∨ c = 'O' ∨ c = 'r' ∨ c = 'R' ∨ c = 's' ∨ c = 'S' then Tmpl.default else tm
+  | _ => tm
 
 /-- the non-standard part of `_OffsetPatternParser.__parse_partial_pattern`: `%Z`, the `Z` prefix, the builder -/
 def compileOffsetText (cu : Culture) (text : Text) : R Pat :=
@@ -127,10 +163,16 @@ def compileOffset (cu : Culture) (text : Text) : R Pat := compileOffsetAux cu 3 
 def Culture.offsetTextsCustom (cu : Culture) : Bool :=
   [cu.offLong, cu.offMedium, cu.offShort, cu.offLongNP, cu.offMediumNP, cu.offShortNP].all (fun t => decide (2 ≤ t.length))
 
+/-- the culture's date/time pattern texts that the LocalDateTime standard letters `f F g G` expand do not use the
+    letter `l` (embedded patterns, outside the modelled subset) -/
+def Culture.dtTextsNoL (cu : Culture) : Bool :=
+  [cu.longDate, cu.shortTime, cu.fullDateTime, cu.shortDate, cu.longTime].all (fun t => !t.contains 'l')
+
 def compile (ty : PType) (cu : Culture) (text : Text) : R Pat :=
   match ty with
   | .time => compileTime cu text
   | .date => compileDate cu text
   | .offset => compileOffset cu text
+  | .datetime tm => compileDateTime tm cu text
 
 end Pyoda.Text
